@@ -30,7 +30,8 @@ class C02(Property):
     min_nontrivial = {"quick": 400, "thorough": 5000}
 
     def gen(self, rnd, i, tier):
-        spec = gen_coupling.gen_dag(rnd, cycle="sufficient" if rnd.random() < 0.3 else None, parallel_prob=0.4)
+        cyc = "sufficient" if rnd.random() < 0.3 else None
+        spec = gen_coupling.gen_dag(rnd, cycle=cyc, parallel_prob=0.4, shipped=0.0 if cyc else 0.25)
         # enrich: extra delay adapters on random forward links (several delays on one link)
         for ln in spec["links"]:
             if rnd.random() < 0.35 and not any(a[0] in gen_coupling.INTEG for a in ln["chain"]) and not ln["src"][0].startswith("p") and not ln.get("stateless_only"):
